@@ -12,8 +12,9 @@ IsHex(r) == IsDigit(r) \/ (r >= 97 /\ r <= 102) \/ (r >= 65 /\ r <= 70)
 IsSpace(r) == r \in {32, 9, 11, 12, 10, 13, 133, 160}
 IsEol(r) == r \in {10, 13}
 IsCont(b) == b >= 128 /\ b <= 191
-\* expected encoded length by lead byte (simplified: 2-, 3-byte forms; others invalid => 1)
-NeedLen(b) == IF b < 128 THEN 1 ELSE IF b >= 194 /\ b <= 223 THEN 2 ELSE IF b >= 224 /\ b <= 239 THEN 3 ELSE 1
+\* expected encoded length by lead byte (2-, 3- and 4-byte forms; others invalid => 1). Simplified: the second-byte ranges that
+\* exclude overlong forms, surrogates and code points beyond U+10FFFF are not modelled (the pools hold well-formed characters)
+NeedLen(b) == IF b < 128 THEN 1 ELSE IF b >= 194 /\ b <= 223 THEN 2 ELSE IF b >= 224 /\ b <= 239 THEN 3 ELSE IF b >= 240 /\ b <= 244 THEN 4 ELSE 1
 \* is the rune starting at index i (1-based) of bs complete (or certainly invalid)?
 FullRuneAt(bs, i) ==
   LET n == NeedLen(bs[i]) avail == Len(bs) - i + 1 IN
@@ -28,5 +29,7 @@ DecodeAt(bs, i) ==
        ELSE IF n = 2 /\ avail >= 2 /\ IsCont(bs[i + 1]) THEN [r |-> (b - 192) * 64 + (bs[i + 1] - 128), w |-> 2]
        ELSE IF n = 3 /\ avail >= 3 /\ IsCont(bs[i + 1]) /\ IsCont(bs[i + 2])
             THEN [r |-> (b - 224) * 4096 + (bs[i + 1] - 128) * 64 + (bs[i + 2] - 128), w |-> 3]
+       ELSE IF n = 4 /\ avail >= 4 /\ IsCont(bs[i + 1]) /\ IsCont(bs[i + 2]) /\ IsCont(bs[i + 3])
+            THEN [r |-> (b - 240) * 262144 + (bs[i + 1] - 128) * 4096 + (bs[i + 2] - 128) * 64 + (bs[i + 3] - 128), w |-> 4]
        ELSE [r |-> RERR, w |-> 1]
 ====
